@@ -679,6 +679,7 @@ ssize_t send(int fd, const void *b, size_t n, int fl) {
   sched_point("send");
   return r_send(fd, b, n, fl);
 }
+static int sndbuf;   /* >0: SO_SNDBUF of the server-side client sockets (small: writers block early) */
 int accept(int fd, struct sockaddr *a, socklen_t *l) {
   if (!MANAGED()) { resolve(); return r_accept(fd, a, l); }
   sched_point("accept");
@@ -716,7 +717,6 @@ static char listen_name[64];
 static volatile int final_phase, server_down;
 static int fbw, fbh; static uint32_t *server_fb;
 static int connect_counter, accept_counter;
-static int sndbuf;   /* >0: SO_SNDBUF of the server-side client sockets (small: writers block early) */
 static int guards;   /* 1 handshake-quiet before bell/cut, 2 wait for stray client threads before cleanup, 4 copy only while output threads idle */
 static peer *pending_accept[MAXCL]; /* connect_seq -> peer */
 
@@ -1278,7 +1278,9 @@ int main(void) {
     for (i = 0; i < nclients; i++) printf("res gone cid=%d count=%d hooked=%d\n", clients[i].cid, clients[i].gone, clients[i].hooked);
     printf("res threads lib_alive=%d lib_unjoined=%d total=%d\n", alive, unj, nthr);
     if (alive) dump_threads();
-    for (i = 0; i < nobj; i++) if (objs[i].kind == 0 && objs[i].live && objs[i].owner) { char b[32]; oname(objs[i].serial, b); printf("res held-at-end %s\n", b); }
+    for (i = 0; i < nobj; i++) if (objs[i].kind == 0 && objs[i].live && objs[i].owner) { char b[32], tb[32]; oname(objs[i].serial, b); printf("res held-at-end %s\n", b);
+      /* a thread that has ended still owns the mutex: nobody can ever unlock it */
+      if (objs[i].owner->state == T_EXITED) { tname(objs[i].owner->idx, tb); printf("res exit-holding %s %s\n", tb, b); } }
   }
   printf("res stats steps=%llu vtime_us=%llu clients=%d shutdown=%d cleanup=%d\n", (unsigned long long)steps, (unsigned long long)vtime_us, nclients, did_shutdown, did_cleanup);
   for (k = 0; k < MAXPEER; k++) if (peers[k].used && peers[k].started) { free(peers[k].fb); peers[k].fb = NULL;
